@@ -29,7 +29,7 @@ var c05CountRe = regexp.MustCompile(`(?m)^(no|\d+) (?:record|records|field|field
 func runC05(seed int64, tier string, out string) {
 	r := rand.New(rand.NewSource(seed))
 	meta := newMeta("C05", seed)
-	meta.Rule = "histories of 1-10 data-changing statements (INSERT VALUES with and without a column list, INSERT SELECT, UPDATE SET .. WHERE, DELETE WHERE, REPLACE .. USING keys, ALTER TABLE ADD [DEFAULT expr] FIRST/LAST/AFTER/BEFORE, DROP, RENAME) on a CSV file table or a temporary table of 1-4 columns and 0-8 rows (some 200-400 rows, cpu 1 and 4), expressions from the C06 language over the table's columns, some statements failing (division by zero, wrong row length); after every statement the reported count and SELECT * are compared with the model. Non-trivial = a history with at least one successful statement that changed the table; distinct = distinct statement texts."
+	meta.Rule = "(i) histories of 1-10 data-changing statements (INSERT VALUES with and without a column list, INSERT SELECT, UPDATE SET .. WHERE, DELETE WHERE, REPLACE .. USING keys, ALTER TABLE ADD [DEFAULT expr] FIRST/LAST/AFTER/BEFORE, DROP, RENAME) on a CSV file table or a temporary table of 1-4 columns and 0-8 rows (some 200-400 rows, cpu 1 and 4), expressions from the C06 language over the table's columns, some statements failing (division by zero, wrong row length); after every statement the reported count and SELECT * are compared with the model. (ii) histories of 1-4 multi-table statements over two joined file tables p, c: DELETE p[, c] FROM p JOIN c ON .. [WHERE ..] and UPDATE p SET .. FROM p JOIN c ON .. (incl. the ambiguous-update error), per-table counts taken from the log lines by file path, then COMMIT and a re-read by a fresh transaction. Non-trivial = a history with at least one successful statement that changed the table; distinct = distinct statement texts."
 	g := &qGen{r: r, pool: qPool(), noDiv: false}
 	selfCheckLiterals(g.pool)
 	nHist := 120
@@ -329,6 +329,7 @@ func runC05(seed int64, tier string, out string) {
 		}
 	}
 	flush()
+	runC05Multi(r, tier, out, meta, g)
 	meta.Notes = append(meta.Notes, fmt.Sprintf("distinct statement texts: %d", len(distinct)))
 	meta.write(out)
 }
